@@ -5,6 +5,7 @@
   `vscreen <rpn> <raw screen…>`   `to_screen()` of the value: the new screen and its rows
   `vderived <rpn> <raw screen…>`  the derived `ScreenBase` properties of the value (size, arity, plates, unique ids, counts, is_observed,
                                   space sizes), `Plate.plate_id` (or its ValueError) and whether `single_treatment_effects` is None / an array / raises
+  `vexprm <mask> <rpn> <raw…>` / `vscreenm <mask> <rpn> <raw…>`  the same on a parent whose observation mask is `<mask>` (possibly NOT plate-uniform)
   `uniq <col> <col> …`             `select_unique_zipped_numpy_arrays([col, col, …])`: the first-occurrence mask of the zipped rows
                                   (`err:ValueError` for no column or columns of different lengths)
 
@@ -80,6 +81,32 @@ def handle : List String → Option String
       match mk? r with
       | .error err => pure ("parent-" ++ showErr err)
       | .ok s => match eval s e with
+        | .error err => pure ("view-" ++ showErr err)
+        | .ok v => match s.viewToScreen v with
+          | .error err => pure (showErr err)
+          | .ok t => pure (showScreen t ++ "|" ++ showRows t)
+  -- parents with PARTLY observed plates (reachable through `set_observed` / `Plate.merge`, refused by `Screen(...)`): the raw screen is
+  -- given with a plate-uniform placeholder mask, the real mask separately; ids and mappings do not depend on the mask
+  | "vexprm" :: m :: rpn :: rest => do
+      let mask ← parseSel? m
+      let r ← parseRaw? rest
+      let e ← parseRpn (if rpn == "-" then [] else rpn.splitOn "+") []
+      match mk? r with
+      | .error err => pure ("parent-" ++ showErr err)
+      | .ok s0 =>
+        let s : Screen := { s0 with mask := mask }
+        match eval s e with
+        | .error err => pure (showErr err)
+        | .ok v => pure ("ok sel=" ++ showList showBool "," v.sel ++ "|" ++ showViewRows (viewRows s v.sel))
+  | "vscreenm" :: m :: rpn :: rest => do
+      let mask ← parseSel? m
+      let r ← parseRaw? rest
+      let e ← parseRpn (if rpn == "-" then [] else rpn.splitOn "+") []
+      match mk? r with
+      | .error err => pure ("parent-" ++ showErr err)
+      | .ok s0 =>
+        let s : Screen := { s0 with mask := mask }
+        match eval s e with
         | .error err => pure ("view-" ++ showErr err)
         | .ok v => match s.viewToScreen v with
           | .error err => pure (showErr err)
